@@ -29,6 +29,7 @@ RULE = (
     "idempotence of output->input->output. Distinct = (scalar, direction, value); non-trivial = the value lies within 1 (or 1 ulp) "
     "of a listed boundary, is non-finite, or is a non-canonical spelling."
     " Law variable_default: a literal written as the default of an unset operation variable = the same literal as an argument = the same JSON value provided for the variable, through execute, for every grid spelling and drawn datetime."
+    " Fourth route of that law: the variable inside a list literal (lT(v: [$v]))."
 )
 ASSUMPTIONS = ["Date/Time/DateTime are exercised only with naive, second-precision values (the statement's 'well-formed')"]
 INT_MIN, INT_MAX = -(2 ** 31), 2 ** 31 - 1
@@ -257,6 +258,8 @@ type Query {
   oDate: Date oTime: Time oDateTime: DateTime
   iInt(v: Int): String iFloat(v: Float): String iString(v: String): String iID(v: ID): String iBoolean(v: Boolean): String
   iDate(v: Date): String iTime(v: Time): String iDateTime(v: DateTime): String
+  lInt(v: [Int]): String lFloat(v: [Float]): String lString(v: [String]): String lID(v: [ID]): String lBoolean(v: [Boolean]): String
+  lDate(v: [Date]): String lTime(v: [Time]): String lDateTime(v: [DateTime]): String
 }
 """
 SCALARS = ["Int", "Float", "String", "ID", "Boolean"]
@@ -285,6 +288,7 @@ def fixture():
     for s in SCALARS + ["Date", "Time", "DateTime"]:
         Resolver("Query.o" + s, schema_name=name)(out_resolver(s))
         Resolver("Query.i" + s, schema_name=name)(in_resolver(s))
+        Resolver("Query.l" + s, schema_name=name)(in_resolver(s))
     extra = []
     for field, sname, kind, sp, text in sdl_default_fields():
         extra.append("  %s(v: %s = %s): String" % (field, sname, text))
@@ -411,12 +415,16 @@ def law_variable_default(name, text, jv, spec):
     fx = fixture()
     got = {}
     for how, q, variables in (("literal", "{ i%s(v: %s) }" % (name, text), None), ("variable", "query($v: %s) { i%s(v: $v) }" % (name, name), {"v": jv}),
-                              ("variable default", "query($v: %s = %s) { i%s(v: $v) }" % (name, text, name), None)):
+                              ("variable default", "query($v: %s = %s) { i%s(v: $v) }" % (name, text, name), None),
+                              ("variable inside a list literal", "query($v: %s) { l%s(v: [$v]) }" % (name, name), {"v": jv})):
         ctx = {}
         resp = run_async(fx["engine"].execute(q, context=ctx, variables=variables))
         if "errors" in resp or "got" not in ctx:
             raise Violation(spec, "%s %s supplied as %s is refused: %r (query %s)" % (name, text, how, resp, q), tag="variable_default")
         got[how] = ctx["got"]
+    nested = got["variable inside a list literal"]
+    if not (isinstance(nested, list) and len(nested) == 1 and same(nested[0], got["literal"])):
+        raise Violation(spec, "%s %s: inside a list literal the variable delivers %r, as a literal %r" % (name, text, nested, got["literal"]), tag="variable_default")
     if not (same(got["literal"], got["variable"]) and same(got["literal"], got["variable default"])):
         raise Violation(spec, "%s %s: the resolver receives different values by route: %r" % (name, text, got), tag="variable_default")
 
